@@ -146,3 +146,23 @@ func Replay(f core.Failure) (string, string) {
 	k, w, _ := CheckOne(f.Input, strings.Contains(f.Config, "true"))
 	return k, w
 }
+
+// Documents streams every document of the content-sequence family (<=n items), for checks that
+// reuse the grammar with another oracle.
+func Documents(n int, emit func(string) bool) {
+	items := append(append(append([]string{}, texts...), cdatas...), others...)
+	seq := core.Sequences{K: len(items), MaxLen: n}
+	for i := uint64(0); i < seq.Count(); i++ {
+		var b strings.Builder
+		for _, k := range seq.At(i, nil) {
+			b.WriteString(items[k])
+		}
+		content := b.String()
+		if strings.Contains(content, "]]>") && !strings.Contains(content, "<![CDATA[") {
+			continue
+		}
+		if !emit(docWith(content, int(i%3), int(i/3%3))) {
+			return
+		}
+	}
+}
